@@ -103,14 +103,17 @@ def for_loop(e):
     if not (sc['k'] == 'Call' and callee_decl(sc) == 'std::iter::IntoIterator::into_iter'): return None
     r = strip(sc['args'][0])
     inclusive = False
+    step = None
+    if r['k'] == 'Call' and callee_decl(r) == 'std::iter::Iterator::step_by' and len(r['args']) == 2:
+        step = r['args'][1]; r = strip(r['args'][0])                 # `(a..b).step_by(s)`: a, a+s, a+2s, .. below b
     if r['k'] == 'Adt' and canon(r['adt']) == 'std::ops::Range':
         lo = [f['expr'] for f in r['fields'] if f['name'] == 'start'][0]; hi = [f['expr'] for f in r['fields'] if f['name'] == 'end'][0]
     elif r['k'] == 'Call' and callee_name(r) == 'std::ops::RangeInclusive::new':
         lo, hi = r['args']; inclusive = True
     else:
         # `for x in (RANGE).map(|j| E)`: x stands for E(j) with j over RANGE
-        mp = mapped_range(r)
-        if mp is None: return ('other', pp(r)[:60], sc.get('loc'))
+        mp = mapped_range(r) if step is None else None
+        if mp is None: return ('other', pp(strip(sc['args'][0]))[:60], sc.get('loc'))
         lo, hi, inclusive, closure = mp
         for m in walk(e):
             if m['k'] == 'Match' and m is not e:
@@ -127,8 +130,8 @@ def for_loop(e):
                 p = unwrap_pat(a['pat'])
                 if p['k'] == 'Variant' and p['variant'] == 'Some' and p['subs']:
                     q = unwrap_pat(p['subs'][0]['pat'])
-                    if q['k'] == 'Binding': return (q['var'], lo, hi, inclusive, a['body'])
-                    if q['k'] == 'Wild': return (None, lo, hi, inclusive, a['body'])        # `for _ in a..b`: only the count matters
+                    if q['k'] == 'Binding': return (q['var'], lo, hi, inclusive, a['body']) + ((None, step) if step is not None else ())
+                    if q['k'] == 'Wild': return (None, lo, hi, inclusive, a['body']) + ((None, step) if step is not None else ())       # `for _ in a..b`: only the count matters
             break
     return None
 
@@ -146,10 +149,22 @@ def mapped_range(r):
     if not cl: return None
     return lo, hi, inclusive, canon(cl[0]['def'])
 
-def rendered_texts(e, skip_ids=()):
+def const_text(e):
+    """the text of a string constant of the crate under analysis (`const CLOSE: &str = "] <= 1 &";`), None otherwise"""
+    e = strip(e)
+    if e['k'] != 'NamedConst' or CRATE[0] is None: return None
+    t = CRATE[0].ithir.get(canon(e['def']))
+    if t is None: return None
+    b = t['body']
+    while b['k'] in ('Borrow', 'Deref', 'Use', 'PointerCoercion', 'NeverToAny') or (b['k'] == 'Block' and not b['stmts'] and b.get('expr') is not None):
+        b = b.get('arg') or b.get('source') or b.get('expr')
+    return b['value'] if b['k'] == 'Literal' and b.get('lit') == 'Str' else None
+
+def rendered_texts(e, skip_ids=(), fill=None):
     """the pieces of text written below e, in order: plain string pieces and format templates, with holes whose argument is a
     string literal (e.g. a `relation: &str` parameter of an inlined helper, given as "<= 1") filled in"""
     import engine_u
+    fill = fill or {}
     out = []; consumed = set()
     for b in walk(e):
         if id(b) in skip_ids: continue
@@ -165,8 +180,11 @@ def rendered_texts(e, skip_ids=()):
                     res = parts[0]
                     for a, nxt in zip(args, parts[1:]):
                         a0 = strip(a)
+                        cs = const_text(a0)
                         if a0['k'] == 'Literal' and a0.get('lit') == 'Str':
                             res += a0['value']; consumed.add(id(a0))
+                        elif cs is not None: res += cs                                  # a private `const NAME: &str = ".."`
+                        elif a0['k'] in ('VarRef', 'UpvarRef') and a0['var'] in fill: res += fill[a0['var']]
                         else: res += '{}'
                         res += nxt
                     text = res
@@ -263,9 +281,26 @@ def extract_nests(t, nvar):
             if fl2 is not None and fl2[0] != 'other' and x is not ibody:
                 inner = (fl2, x); break
             if fl2 is not None and fl2[0] == 'other': raise NUndec('inner loop over %s is not a numeric range' % fl2[1], fl2[2])
+        fill = {}
+        if inner is None:
+            # the list built as one string and written through a hole: `let cells: String = (a..b).map(|j| format!("v_{},", E)).collect();
+            # writeln!(w, "[{}] <= 1 &", cells)` - the closure body is the loop body, the hole is where the loop's output goes
+            for b in walk(ibody):
+                if b['k'] != 'Block' or inner is not None: continue
+                for st in b['stmts']:
+                    if st['k'] != 'Let' or st.get('init') is None or st['init'].get('exp') is not None: continue
+                    q = unwrap_pat(st['pat']); i0 = strip(st['init'])
+                    if q['k'] == 'Binding' and i0['k'] == 'Call' and callee_decl(i0) == 'std::iter::Iterator::collect' and 'String' == (i0['ty'].get('s') or '').split('::')[-1]:
+                        mp = mapped_range(i0['args'][0])
+                        ct = CRATE[0].ithir.get(mp[3]) if mp is not None and CRATE[0] is not None else None
+                        if ct is not None and len(ct['params']) == 2 and unwrap_pat(ct['params'][1]['pat'])['k'] == 'Binding':
+                            inner = ((unwrap_pat(ct['params'][1]['pat'])['var'], mp[0], mp[1], mp[2], ct['body']), st['init'])
+                            fill[q['var']] = ''
+                            break
         if inner is None: raise NUndec('constraint loop without an inner index loop', e0.get('loc'))
         fl2, jnode = inner
         jvar, jlo, jhi, jinc, jbody = fl2[:5]
+        jstep = fl2[6] if len(fl2) == 7 else None
         names2 = dict(names)
         if jvar is not None: names2[jvar] = 'j'
         mapped = None
@@ -280,7 +315,7 @@ def extract_nests(t, nvar):
         # texts outside the inner loop
         inner_ids = set(id(x) for x in walk(jnode))
         import engine_u
-        lits = rendered_texts(ibody, inner_ids)
+        lits = rendered_texts(ibody, inner_ids, fill)
         if mapped is not None:
             # literals inside the index closure expression are not text
             pass
@@ -311,8 +346,36 @@ def extract_nests(t, nvar):
             jl = poly_of(jlo, names2)
             # iteration with loop value j is number (j - jlo): written value S + (j - jlo + k0) * T
             E = padd(S_, pmul(padd(padd(PV('j'), jl, -1), P(k0)), T_))
+        pjlo, pjhi = poly_of(jlo, names2), poly_of(jhi, names2)
+        pstep = poly_of(jstep, names) if jstep is not None else P(1)
+        if pstep != P(1) or not is_affine(pjlo) or not is_affine(pjhi):
+            # bring the inner range to the form 0..K with the index written as E(lo + j*step): the value sequence is the same
+            pilo, pihi = poly_of(ilo, names), poly_of(ihi, names)
+            if iinc: pihi = padd(pihi, P(1))
+            domi = [padd(N_, P(-1)), padd(I_, pilo, -1), padd(padd(pihi, I_, -1), P(-1))]
+            top = padd(pjhi, P(1)) if jinc else pjhi
+            K = None
+            if pstep == P(1):
+                K = padd(top, pjlo, -1)
+                if not is_affine(K): raise NUndec('the inner range %s .. %s has no affine length' % (pshow(pjlo), pshow(top)), jnode.get('loc'))
+            else:
+                # K iterations iff lo + (K-1)*step < top <= lo + K*step (step >= 1): try the affine candidates
+                if not implies_ge0(domi, padd(pstep, P(-1))): raise NUndec('cannot prove the step %s of the inner range positive' % pshow(pstep), jnode.get('loc'))
+                for cand in [padd(N_, P(c)) for c in (0, -1, 1)] + [padd(I_, P(c)) for c in (0, -1, 1)] + [padd(padd(N_, I_, -1), P(c)) for c in (0, -1, 1)]:
+                    g1 = padd(padd(top, pjlo, -1), padd(pmul(padd(cand, P(-1)), pstep), P(1)), -1)         # top - lo - (K-1)*step - 1 >= 0
+                    g2 = padd(padd(pjlo, pmul(cand, pstep)), top, -1)                                    # lo + K*step - top >= 0
+                    if is_affine(g1) and is_affine(g2) and implies_ge0(domi, g1) and implies_ge0(domi, g2) and implies_ge0(domi, cand): K = cand; break
+                if K is None: raise NUndec('cannot determine how many values the stepped range %s .. %s by %s yields' % (pshow(pjlo), pshow(top), pshow(pstep)), jnode.get('loc'))
+            sub = padd(pjlo, pmul(J_, pstep))
+            E2 = {}
+            for (a_, b_, c_), v_ in E.items():
+                term = {(a_, 0, c_): v_}
+                for _ in range(b_): term = pmul(term, sub)
+                E2 = padd(E2, term)
+            E = E2
+            pjlo, pjhi, jinc = P(0), K, False
         nests.append({'ilo': poly_of(ilo, names), 'ihi': poly_of(ihi, names), 'iinc': iinc,
-                      'jlo': poly_of(jlo, names2), 'jhi': poly_of(jhi, names2), 'jinc': jinc, 'E': E, 'text': outer_text,
+                      'jlo': pjlo, 'jhi': pjhi, 'jinc': jinc, 'E': E, 'text': outer_text,
                       'tokens': engine_l.tokenize_text(PATTERN[0], outer_text), 'loc': e0.get('loc')})
     return nests
 
